@@ -87,13 +87,24 @@ func c16Ops() []c16Op {
 				sig := ed25519.Sign(sk, a[1])
 				return hxv(sig) + fmt.Sprint(ed25519.Verify(ed25519.PublicKey(sk[32:]), a[1], sig))
 			}},
-		{"ecdsa.CreateKey/BlindPublicKeyWithContext/BlindKeySignWithContext", func(w *c03World, r *Rng) [][]byte { return [][]byte{r.Bytes(48), r.Bytes(48), r.Bytes(7), r.Bytes(48)} },
+		{"ecdsa.CreateKey/BlindPublicKeyWithContext/BlindKeySignWithContext", func(w *c03World, r *Rng) [][]byte {
+			// every other time the blind key's bytes are not reduced modulo the group order (all ones)
+			bk := r.Bytes(48)
+			if r.IntN(2) == 0 {
+				bk = bytes.Repeat([]byte{0xff}, 48)
+			}
+			return [][]byte{r.Bytes(48), bk, r.Bytes(7), r.Bytes(48)}
+		},
 			func(w *c03World, a [][]byte) string {
 				sk, _ := ecdsa.CreateKey(elliptic.P384(), a[0])
 				bk, _ := ecdsa.CreateKey(elliptic.P384(), a[1])
+				d0, b0 := new(big.Int).Set(sk.D), new(big.Int).Set(bk.D)
 				p, _ := ecdsa.BlindPublicKeyWithContext(elliptic.P384(), &sk.PublicKey, bk, a[2])
 				u, _ := ecdsa.UnblindPublicKeyWithContext(elliptic.P384(), p, bk, a[2])
 				rr, ss, _ := ecdsa.BlindKeySignWithContext(&failReader{limit: -1}, sk, bk, a[3], a[2])
+				if sk.D.Cmp(d0) != 0 || bk.D.Cmp(b0) != 0 || bk.D.Cmp(new(big.Int).SetBytes(a[1])) != 0 {
+					return "!!a key object handed to a blinding operation was changed by it"
+				}
 				return bigHex(p.X) + bigHex(u.X) + fmt.Sprint(ecdsa.Verify(p, a[3], rr, ss))
 			}},
 		{"ecdsa.Sign/SignASN1/Verify/VerifyASN1", func(w *c03World, r *Rng) [][]byte { return [][]byte{r.Bytes(32), r.Bytes(32)} },
@@ -316,6 +327,9 @@ func runC16(c *Ctx) {
 					reseedRand(c.Seed, "c16:"+op.name)
 					res := op.run(w, args)
 					results = append(results, res)
+					if i := strings.Index(res, "!!"); i >= 0 {
+						verdict = res[i+2:]
+					}
 					for i, g := range gs {
 						if p := g.changedAt(); p >= 0 {
 							where := "within its length"
@@ -432,18 +446,31 @@ func runC16(c *Ctx) {
 					unmarshal func([]byte) bool
 					marshal   func() []byte
 					a, b      []byte
+					fields    func() [][]byte
 				}
 				q1, q2, q3, q5, qi := &type1.BasicPrivateTokenRequest{}, &type2.BasicPublicTokenRequest{}, &type3.RateLimitedTokenRequest{}, &type5.BatchedPrivateTokenRequest{}, &type3.InnerTokenRequest{}
-				for _, o := range []obj{{"type1", q1.Unmarshal, q1.Marshal, A1, B1}, {"type2", q2.Unmarshal, q2.Marshal, A2, B2}, {"type3", q3.Unmarshal, q3.Marshal, A3, B3},
-					{"type5", q5.Unmarshal, q5.Marshal, A5, B5}, {"inner", qi.Unmarshal, qi.Marshal, AI, BI}} {
+				for _, o := range []obj{{"type1", q1.Unmarshal, q1.Marshal, A1, B1, func() [][]byte { return [][]byte{q1.BlindedReq} }},
+					{"type2", q2.Unmarshal, q2.Marshal, A2, B2, func() [][]byte { return [][]byte{q2.BlindedReq} }},
+					{"type3", q3.Unmarshal, q3.Marshal, A3, B3, func() [][]byte { return [][]byte{q3.RequestKey, q3.NameKeyID, q3.EncryptedTokenRequest, q3.Signature} }},
+					{"type5", q5.Unmarshal, q5.Marshal, A5, B5, func() [][]byte { return q5.BlindedReq }},
+					{"inner", qi.Unmarshal, qi.Marshal, AI, BI, func() [][]byte { _, bm, po := qi.VerifFields(); return [][]byte{bm, po} }}} {
 					if !o.unmarshal(o.a) {
 						return o.name + " request: honest encoding refused"
+					}
+					heldFields, heldCopy := o.fields(), [][]byte{}
+					for _, f := range heldFields {
+						heldCopy = append(heldCopy, append([]byte{}, f...))
 					}
 					first := o.marshal()
 					snap := append([]byte{}, first...)
 					inA := append([]byte{}, o.a...)
 					if !o.unmarshal(o.b) {
 						return o.name + " request: honest encoding refused"
+					}
+					for k := range heldFields {
+						if !bytes.Equal(heldFields[k], heldCopy[k]) {
+							return o.name + " request: a field decoded earlier (still held by the caller) changed when the object decoded another request"
+						}
 					}
 					second := o.marshal()
 					if !bytes.Equal(first, snap) {
